@@ -15,7 +15,7 @@ func init() {
 		Explain:    "Decides structural necessary conditions of `the size cache never makes Marshal output stale`: (1) the MarshalUseCachedSize flag is introduced only in proto.MarshalOptions.marshal, dominated by a methods.Size call on the same message with the same flags, or copied from the caller's explicit UseCachedSize option; (2) every read of a message's size-cache word is dominated by the true edge of opts.UseCachedSize(); (3) every exit of sizePointerSlow with a valid cache offset stores the freshly computed size (or 0 when it does not fit), and the cache word is written nowhere else; (4) sizePointerSlow forwards its options unchanged to every nested size function, so a top-level pass without the flag refreshes every nested cache that Marshal will read. The UseCachedSize option itself is bridged faithfully: the public option sets exactly its flag bit, the internal accessor tests exactly that bit, and Options() copies it from the accessor (R-OPTS-BRIDGE) — a cache may only be trusted where the caller asked for it.",
 		NotCovered: "a caller asserting UseCachedSize itself after mutating the message (documented as the caller's responsibility); user-provided protoiface.Methods; that each field coder's size function descends into every nested message that its marshal function later consults (covered by the size/append agreement rules of C04 when claimed).",
 		Quick:      all("./proto", "./internal/impl"),
-		Thorough:   all("./..."),
+		Thorough:   allAndLegacy("./proto", "./internal/impl"),
 		Run: func(c *Ctx) {
 			c.ruleOptsBridge("R-OPTS-BRIDGE", "marshal")
 			c.ruleSizeCache("R-SIZECACHE")
